@@ -243,6 +243,11 @@ def gen_readmeta_cases(seed, tier):
             if tier == "quick":
                 cuts = [None] + rng.sample(cuts[1:], min(len(cuts) - 1, 6))
                 rpcs = rng.sample(rpcs, min(len(rpcs), 3))
+            elif n > 5:
+                # the large geometries of the thorough tier: every boundary class is still hit, by sampling (the exhaustive
+                # enumeration over the small geometries stays); bounds time and memory (tens of kB per case)
+                cuts = [None] + rng.sample(cuts[1:], min(len(cuts) - 1, 40))
+                rpcs = rng.sample(rpcs, min(len(rpcs), 4))
             for rpc in rpcs:
                 for cut in cuts:
                     d = bytes(data if cut is None else data[:cut])
@@ -271,11 +276,11 @@ def gen_readmeta_cases(seed, tier):
 
 def check_readmeta(seed, tier, types):
     cases = gen_readmeta_cases(seed, tier)
-    ops, reals = [], []
-    for c in cases:
-        reals.append(real_readmeta(c["data"], c["rpc"]))
-        ops.append({"op": "readmeta", "file": c["data"].hex(), "n": c["n"], "L": c["L"], "rpc": c["rpc"], "types": types})
-    outs = run_model(ops)
+    reals, outs = [], []
+    for k in range(0, len(cases), 2000):  # in batches: bounded memory
+        batch = cases[k:k + 2000]
+        reals += [real_readmeta(c["data"], c["rpc"]) for c in batch]
+        outs += run_model([{"op": "readmeta", "file": c["data"].hex(), "n": c["n"], "L": c["L"], "rpc": c["rpc"], "types": types} for c in batch])
     bad = []
     dist = {"ok": 0, "err": {}, "kinds": {}}
     distinct = set()
